@@ -71,6 +71,10 @@ type c16step struct {
 	Tmpl    []*TNode `json:"tmpl"`               // block overrides (all blocks of the base)
 	Data    *TData   `json:"data"`
 	Data2   *TData   `json:"data2,omitempty"` // a second render of the same child with other data
+	// Reload: the child is loaded a second time under its name (same source) before it is rendered.
+	// RemovePrev: the child loaded in the previous step is removed from the engine before this one is rendered.
+	Reload     bool `json:"reload,omitempty"`
+	RemovePrev bool `json:"remove_prev,omitempty"`
 	Entry   int      `json:"entry"`
 }
 
@@ -150,6 +154,7 @@ func c16genHist(r *sim.Rand, c *sim.Case) {
 		if r.Chance(0.4) {
 			st.Data2 = g.Data()
 		}
+		st.Reload, st.RemovePrev = r.Chance(0.2), k > 0 && r.Chance(0.25)
 		cc.Hist = append(cc.Hist, st)
 	}
 	if r.Chance(0.5) {
@@ -261,6 +266,17 @@ func c16execHist(c *sim.Case, cc *c16case, env *Env) []sim.Violation {
 		if _, err := eng.LoadTemplate(name, "{{extends \"base\"}}"+tsrc(st.Tmpl)); err != nil {
 			fail("render-failed", "history:load-error", "child "+name+" failed to load: "+err.Error())
 			break
+		}
+		if st.Reload {
+			if _, err := eng.LoadTemplate(name, "{{extends \"base\"}}"+tsrc(st.Tmpl)); err != nil {
+				fail("render-failed", "history:load-error", "child "+name+" failed to load a second time: "+err.Error())
+				break
+			}
+			env.Stats.Probe("history_child_reloaded")
+		}
+		if st.RemovePrev && k > 0 {
+			eng.RemoveTemplate(fmt.Sprintf("c%d", k-1))
+			env.Stats.Probe("history_sibling_removed")
 		}
 		ov := map[string][]*TNode{}
 		for _, b := range st.Tmpl {
